@@ -4,11 +4,13 @@ import (
 	"encoding/hex"
 	"encoding/json"
 	"fmt"
+	"math/big"
 	"sort"
 	"strconv"
 	"strings"
 
 	"github.com/anoideaopen/foundation/core"
+	"github.com/anoideaopen/foundation/core/balance"
 	fpb "github.com/anoideaopen/foundation/proto"
 	"github.com/golang/protobuf/proto" //nolint:staticcheck
 )
@@ -301,13 +303,108 @@ func (bw *batchWorld) submit(c *Ctx, sender int, nonce uint64, b []bodyStep, to 
 
 func genC04(c *Ctx) error {
 	c.ShardSize = 40
-	c.Notes["rule"] = "each case: a fresh chaincode with some data keys and nonce windows left by earlier batches; 0-8 scripted transactions (put/delete/read/event steps over 4 keys, 25% failing after having written, 7% panicking) submitted by 3 senders that also name each other as address arguments, then ONE batchExecute listing them in random order with duplicates and unknown ids - or the same requests as ONE executeTasks list. Observed: the reply per listed id (error class or reported writes/events) and the projection of the whole ledger (data, pending and nonce keys). Non-trivial: at least two items of which one succeeds and one does not."
+	c.Notes["rule"] = "each case: a fresh chaincode with some data keys and nonce windows left by earlier batches; 0-8 scripted transactions (put/delete/read/event steps over 4 keys, 25% failing after having written, 7% panicking) submitted by 3 senders that also name each other as address arguments, then ONE batchExecute listing them in random order with duplicates and unknown ids - or the same requests as ONE executeTasks list. Observed: the reply per listed id (error class or reported writes/events) and the projection of the whole ledger (data, pending and nonce keys). Plus batches of 1-5 library operations that announce something in the reply (swapBegin / multiSwapBegin: funded and not, foreign token, own channel; next to transfers): the created swaps and multi-swaps of the reply against the per-transaction verdicts. Non-trivial: at least two items of which one succeeds and one does not."
 	n := c.N(300, 6000)
 	for i := 0; i < n; i++ {
 		if err := c04Case(c, i%2 == 0); err != nil {
 			return err
 		}
 	}
+	for i := c.N(40, 800); i > 0; i-- {
+		if err := c04Announce(c); err != nil {
+			return err
+		}
+	}
+	return nil
+}
+
+// c04Announce: one batch of 1-5 library operations that announce something in the batch reply - swapBegin and
+// multiSwapBegin, funded and not, with a token that is neither side of the swap, towards the own channel - next to plain
+// transfers; the reply must announce exactly what the successful ones produced.
+func c04Announce(c *Ctx) error {
+	rng := c.Rng
+	w := NewWorld()
+	if _, err := w.AddToken("TT", ChanOpts{}); err != nil {
+		return err
+	}
+	u := w.NewAccount(fpb.KeyType_ed25519)
+	v := w.NewAccount(fpb.KeyType_ed25519)
+	w.SetBalance("tt", balance.BalanceTypeToken, u.AddrString(), "", big.NewInt(100))
+	w.SetBalance("tt", balance.BalanceTypeToken, u.AddrString(), "G1", big.NewInt(100))
+	nonce := uint64(1700000000000)
+	type sub struct {
+		id    string
+		multi bool
+		swap  bool
+	}
+	var subs []sub
+	for k := 1 + rng.Intn(5); k > 0; k-- {
+		nonce++
+		amt := []string{"10", "60", "100", "101", "500", "0"}[rng.Intn(6)]
+		tok := []string{"TT", "TT", "TT", "XX", "VT"}[rng.Intn(5)]
+		to := []string{"VT", "VT", "VT", "TT"}[rng.Intn(4)]
+		var res *TxResult
+		s := sub{}
+		switch rng.Intn(5) {
+		case 0, 1:
+			s.swap = true
+			res = w.Submit("tt", "swapBegin", w.SignedArgs("tt", "swapBegin", u, strconv.FormatUint(nonce, 10), tok, to, amt, hex.EncodeToString(swHash("k"))))
+		case 2, 3:
+			s.swap, s.multi = true, true
+			assets := fmt.Sprintf(`{"assets":[{"group":"%s_G1","amount":"%s"},{"group":"%s_G1","amount":"%s"}]}`, tok, amt, tok, []string{"1", "70"}[rng.Intn(2)])
+			res = w.Submit("tt", "multiSwapBegin", w.SignedArgs("tt", "multiSwapBegin", u, strconv.FormatUint(nonce, 10), tok, assets, to, hex.EncodeToString(swHash("k"))))
+		default:
+			res = w.Submit("tt", "transfer", w.SignedArgs("tt", "transfer", u, strconv.FormatUint(nonce, 10), v.AddrString(), amt, "ref"))
+		}
+		if res.OK() {
+			s.id = res.TxID
+			subs = append(subs, s)
+		} else {
+			c.Count("announce_submission_refused")
+		}
+	}
+	var ids []string
+	for _, s := range subs {
+		ids = append(ids, s.id)
+	}
+	if len(ids) == 0 {
+		return nil
+	}
+	out := w.ExecBatchIDs("tt", ids...)
+	if out.Resp == nil || len(out.Resp.GetTxResponses()) != len(ids) {
+		return fmt.Errorf("c04Announce: batch failed: %s", out.Res.Message)
+	}
+	num := map[string]int{}
+	var listed []string
+	okAny, badAny := false, false
+	for i, s := range subs {
+		num[s.id] = i + 1
+		ok := out.Resp.GetTxResponses()[i].GetError().GetError() == ""
+		if s.swap {
+			listed = append(listed, fmt.Sprintf("(%d, %s, %s)", i+1, coqBool(s.multi), coqBool(ok)))
+			okAny, badAny = okAny || ok, badAny || !ok
+			c.Count(fmt.Sprintf("announce_begin_multi_%v_ok_%v", s.multi, ok))
+		}
+	}
+	ann := func(idsB [][]byte) string {
+		var l []string
+		for _, b := range idsB {
+			n, found := num[hex.EncodeToString(b)]
+			if !found {
+				n = 999
+			}
+			l = append(l, strconv.Itoa(n))
+		}
+		return coqList(l)
+	}
+	var sw, ms [][]byte
+	for _, x := range out.Resp.GetCreatedSwaps() {
+		sw = append(sw, x.GetId())
+	}
+	for _, x := range out.Resp.GetCreatedMultiSwap() {
+		ms = append(ms, x.GetId())
+	}
+	c.Emit(fmt.Sprintf("CAnnounce %s %s %s", coqList(listed), ann(sw), ann(ms)), map[string]interface{}{"batch_of_library_operations": len(ids), "listed_begins": listed}, okAny && badAny)
 	return nil
 }
 
